@@ -89,6 +89,46 @@ def _seeded(ck, pid):
     print(f"[{pid}] seeded changes: {summary}")
 
 
+def _benign(ck, pid):
+    """Thorough tier: the stored behaviour-preserving refactorings (/verif/benign/*/patch.diff, written by independent
+    sub-agents, transcripts identical before/after) are applied to scratch copies of /repo/pint and this property's check
+    must stay silent (exit 0) on every one of them.  Recorded in evidence; never changes the verdict."""
+    import shutil
+    import subprocess
+    import tempfile
+    from concurrent.futures import ThreadPoolExecutor
+    here = os.path.dirname(os.path.dirname(os.path.abspath(__file__)))
+    root = os.path.join(here, "benign")
+    repo = os.environ.get("PINT_REPO", "/repo")
+    if not os.path.isdir(root):
+        return
+
+    def one(name):
+        pf = os.path.join(root, name, "patch.diff")
+        tmp = tempfile.mkdtemp(prefix="benign-")
+        try:
+            shutil.copytree(os.path.join(repo, "pint"), os.path.join(tmp, "pint"), ignore=shutil.ignore_patterns("testsuite", "__pycache__"))
+            if subprocess.run(["patch", "-p1", "-s", "-f", "-d", tmp, "-i", pf], capture_output=True).returncode != 0:
+                return {"refactoring": name, "status": "patch-does-not-apply"}
+            env = dict(os.environ, PINT_REPO=tmp, VERIF_EVIDENCE_DIR=os.path.join(tmp, "ev"))
+            rr = subprocess.run([os.path.join(here, "check"), pid], capture_output=True, text=True, env=env)
+            first = next((l.strip() for l in rr.stdout.splitlines() if l.startswith("  pint") or "ANALYSIS-ERROR" in l), "")
+            return {"refactoring": name, "status": {0: "silent", 1: "FALSE-ALARM", 2: "inapplicable"}.get(rr.returncode, "error"), "report": first[:200]}
+        except Exception as e:
+            return {"refactoring": name, "status": "error", "why": str(e)}
+        finally:
+            shutil.rmtree(tmp, ignore_errors=True)
+    names = sorted(n for n in os.listdir(root) if os.path.exists(os.path.join(root, n, "patch.diff")))
+    with ThreadPoolExecutor(max_workers=8) as ex:
+        out = list(ex.map(one, names))
+    summary = {}
+    for x in out:
+        summary[x["status"]] = summary.get(x["status"], 0) + 1
+    ck.extra["benign_refactorings"] = {"summary": summary, "not_silent": [x for x in out if x["status"] != "silent"],
+                                       "explanation": "behaviour-preserving refactorings of the anchored functions written by independent sub-agents (see benign/<id>/meta.json); the check must not alarm on any of them"}
+    print(f"[{pid}] benign refactorings: {summary}")
+
+
 def main(argv):
     if not argv:
         print("usage: check <ID> [--tier quick|thorough] [--replay path]")
@@ -128,6 +168,7 @@ def main(argv):
     if tier == "thorough":
         _selftest(ck, pid)
         _seeded(ck, pid)
+        _benign(ck, pid)
     code = ck.finish(explanation)
     if replay:
         try:
